@@ -74,6 +74,7 @@ def decompose(sel, N):
 def run_case(case, drv):
     res = Result(key=core.case_key(case))
     o, outcome = FU.build_form(case)
+    FU.check_fresh_twin(o, case["form"], res)
     FU.check_construction(o, res)
     if outcome not in (None, "ok"):
         res.nontrivial = False
